@@ -26,8 +26,10 @@ import (
 // factoring an inline model into definitions and sibling files
 
 type slot struct {
-	ptr    **model.Node
-	inItem bool
+	ptr      **model.Node
+	inItem   bool
+	inAnyOf  bool // a whole anyOf branch
+	inBranch bool // a whole allOf/anyOf branch
 }
 
 func slotsOf(n *model.Node, seen map[*model.Node]bool, out *[]slot) {
@@ -43,7 +45,9 @@ func slotsOf(n *model.Node, seen map[*model.Node]bool, out *[]slot) {
 		*out = append(*out, slot{ptr: &n.Items, inItem: true})
 		slotsOf(n.Items, seen, out)
 	}
-	for _, b := range n.Branches {
+	for i, b := range n.Branches {
+		// a whole branch can be given by reference too
+		*out = append(*out, slot{ptr: &n.Branches[i], inBranch: true, inAnyOf: n.Kind == model.KAnyOf})
 		slotsOf(b, seen, out)
 	}
 }
@@ -61,6 +65,15 @@ func constrainedPrimitive(n *model.Node) bool {
 func factorable(c *core.Ctx, n *model.Node, s slot) bool {
 	if n == nil || n.Nullable || n.Default != nil {
 		return false
+	}
+	if s.inBranch {
+		if n.Kind != model.KObject || len(n.Props) == 0 || n.NoType {
+			return false
+		}
+		if s.inAnyOf && len(n.Required) == 0 && c.Avoid("anyof.ref_branch_without_validators") {
+			return false
+		}
+		return true
 	}
 	switch n.Kind {
 	case model.KObject:
@@ -92,14 +105,56 @@ func factorable(c *core.Ctx, n *model.Node, s slot) bool {
 	return false
 }
 
+// defName: definition names are either unique counters (X1, Y2, ...) or, in
+// half of the cases, drawn from a tiny pool so that the same name occurs in
+// several documents of one case (unique within each document).
+func (b *refBuilder) defName(f *model.File, prefix string, depth int, n *model.Node) string {
+	b.ndef++
+	pooled := b.sameNames
+	inside := map[string]bool{}
+	if b.c.Avoid("names.collision_while_unsuffixed_in_progress") {
+		// the same finding: names of definitions referenced from inside n
+		model.Walk(n, func(x *model.Node) {
+			if x.Kind == model.KRef {
+				if i := strings.LastIndex(x.Ref, "/"); i >= 0 && strings.Contains(x.Ref, "#/") {
+					inside[x.Ref[i+1:]] = true
+				}
+			}
+		})
+	}
+	if pooled && depth > 0 && b.c.Avoid("names.collision_while_unsuffixed_in_progress") {
+		// known finding: a same-named type met while the outer declaration is still in progress
+		b.c.ExcludedMap()["names.collision_while_unsuffixed_in_progress"]++
+		pooled = false
+	}
+	if pooled {
+		for _, cand := range []string{"Base", "Item", "Meta", "Part"} {
+			taken := false
+			if f != nil {
+				for _, d := range f.Defs {
+					if d.Name == cand {
+						taken = true
+					}
+				}
+			}
+			if !taken && !inside[cand] {
+				b.modes["defname.pooled"]++
+				return cand
+			}
+		}
+	}
+	return fmt.Sprintf("%s%d", prefix, b.ndef)
+}
+
 type refBuilder struct {
-	c      *core.Ctx
-	t      *rapid.T
-	files  []*model.File
-	nfile  int
-	ndef   int
-	resExt bool
-	modes  map[string]int
+	sameNames bool
+	c         *core.Ctx
+	t         *rapid.T
+	files     []*model.File
+	nfile     int
+	ndef      int
+	resExt    bool
+	modes     map[string]int
 }
 
 func relPath(fromDir, to string) string {
@@ -250,19 +305,38 @@ func (b *refBuilder) factor(f *model.File, root *model.Node, depth int, maxPick 
 		}
 		switch mode {
 		case 0, 1: // same-file definition
-			b.ndef++
-			dn := fmt.Sprintf("X%d", b.ndef)
+			dn := b.defName(f, "X", depth, n)
 			f.Defs = append(f.Defs, model.Def{Name: dn, Node: n})
 			ref = "#/$defs/" + dn
 			home = f
 			b.modes["mode.same_file_def"]++
+			// alias definitions: X<k>A1 = {"type": "object", "$ref": X<k>} (and a second hop);
+			// referrers point at the last alias. A definition that is nothing but a
+			// reference (no type keyword) is a known finding.
+			if n.Kind == model.KObject && !n.Nullable {
+				hops := rapid.SampledFrom([]int{0, 0, 0, 1, 1, 2}).Draw(b.t, "aliashops")
+				for h := 1; h <= hops; h++ {
+					an := fmt.Sprintf("%sA%d", dn, h)
+					alias := &model.Node{Kind: model.KRef, Ref: ref, Target: n}
+					if rapid.IntRange(0, 3).Draw(b.t, "purealias") == 0 && !b.c.Avoid("refs.pure_alias_definition") {
+						b.modes["alias.pure"]++
+					} else {
+						if b.c.Avoid("refs.pure_alias_definition") {
+							b.c.ExcludedMap()["refs.pure_alias_definition"]++
+						}
+						alias.Noise = []jv.KV{{K: "type", V: jv.StrV("object")}}
+						b.modes["alias.typed"]++
+					}
+					f.Defs = append(f.Defs, model.Def{Name: an, Node: alias})
+					ref = "#/$defs/" + an
+				}
+			}
 		case 2: // root of another file
 			home = b.newFile(dir, n, "")
 			ref = b.spellFileRef(dir, home.RelPath)
 			b.modes["mode.file_root"]++
 		default: // definition inside another file
-			b.ndef++
-			dn := fmt.Sprintf("Y%d", b.ndef)
+			dn := b.defName(nil, "Y", depth, n)
 			home = b.newFile(dir, n, dn)
 			ref = b.spellFileRef(dir, home.RelPath) + "#/$defs/" + dn
 			b.modes["mode.file_def"]++
@@ -490,8 +564,31 @@ func TestC10(t *testing.T) {
 			S.Root.Props = append(S.Root.Props, model.Prop{Name: "chain", Node: outer})
 			S.Root.Required = append(S.Root.Required, "chain")
 		}
+		// two composition lists whose first branches become references to definitions of the
+		// same name in two different documents (local and in another file)
+		wantBranchRefs := rapid.IntRange(0, 9).Draw(rt, "branchrefs") < 3
+		brKind := model.KAllOf
+		brNames := []string{"zalpha", "zbeta"}
+		if wantBranchRefs {
+			if rapid.Bool().Draw(rt, "branchrefsanyof") {
+				brKind = model.KAnyOf
+			}
+			if rapid.Bool().Draw(rt, "branchrefsswap") {
+				brNames = []string{"zbeta", "zalpha"}
+			}
+			kinds := rapid.Permutation([]model.Kind{model.KString, model.KInteger, model.KBoolean}).Draw(rt, "branchrefkinds")
+			for i, pn := range brNames {
+				base := &model.Node{Kind: model.KObject, Props: []model.Prop{
+					{Name: "id", Node: &model.Node{Kind: kinds[i]}},
+					{Name: fmt.Sprintf("only%d", i), Node: &model.Node{Kind: kinds[2]}},
+				}, Required: []string{"id", fmt.Sprintf("only%d", i)}[:1+i]}
+				extra := &model.Node{Kind: model.KObject, Props: []model.Prop{{Name: fmt.Sprintf("extra%d", i), Node: &model.Node{Kind: model.KBoolean}}}, Required: []string{fmt.Sprintf("extra%d", i)}}
+				S.Root.Props = append(S.Root.Props, model.Prop{Name: pn, Node: &model.Node{Kind: brKind, Branches: []*model.Node{base, extra}}})
+				S.Root.Required = append(S.Root.Required, pn)
+			}
+		}
 		cfg := baseConfig()
-		rb := &refBuilder{c: c, t: rt, modes: modes}
+		rb := &refBuilder{c: c, t: rt, modes: modes, sameNames: rapid.Bool().Draw(rt, "samedefnames")}
 		if rapid.IntRange(0, 2).Draw(rt, "resext") == 0 {
 			cfg.ResolveExtensions = []string{".json", ".yaml"}
 			rb.resExt = true
@@ -507,6 +604,21 @@ func TestC10(t *testing.T) {
 		forced := 0
 		if wantChain {
 			forced = rb.forceChain(R, mainDir)
+		}
+		if wantBranchRefs {
+			for i, pn := range brNames {
+				comp := R.Root.Prop(pn)
+				base := comp.Branches[0]
+				if i == 0 {
+					R.Defs = append(R.Defs, model.Def{Name: "Base", Node: base})
+					comp.Branches[0] = &model.Node{Kind: model.KRef, Ref: "#/$defs/Base", Target: base}
+				} else {
+					home := rb.newFile(mainDir, base, "Base")
+					comp.Branches[0] = &model.Node{Kind: model.KRef, Ref: rb.spellFileRef(mainDir, home.RelPath) + "#/$defs/Base", Target: base}
+				}
+			}
+			modes["branchrefs.same_name_two_documents."+brKind.String()]++
+			forced++
 		}
 		n := rb.factor(R, R.Root, 0, 4) + forced
 		if n == 0 {
